@@ -105,6 +105,7 @@ ClosureClauses ==
            IF Rec.aligned = 0 THEN defined = ExpectedKeys(Rec.trs) \cup SummedKeys(Rec.trs)
            ELSE (ExpectedKeys(Rec.trs) \cup SummedKeys(Rec.trs)) \subseteq defined, <<defined, ExpectedKeys(Rec.trs)>>)
   /\ (Rec.aligned = 0 => Drift("summed-keys-as-predicted", used = SummedKeys(Rec.trs), <<used, SummedKeys(Rec.trs)>>))
+  /\ Drift("amplitude-definitions-have-numeric-projections", Cl.symbolic_defs = 0, Cl.symbolic_defs)
   /\ Stat("closure-symbols", Cardinality(free))
 
 Step == /\ l <= Len(Log)
